@@ -293,6 +293,17 @@ pub fn main(args: &[String]) {
                     }
                 }
                 if op.touches_fs() && w.tree.is_some() {
+                    let idx = match w.tree() {
+                        AnyTree::Standard(t) => t.clone(),
+                        AnyTree::Blob(b) => b.index.clone(),
+                    };
+                    if let Some(h) = lsm_tree::verif_api::dump_history(&idx).last() {
+                        let mut tabs: Vec<u64> = h.table_ids.iter().flatten().flatten().copied().collect();
+                        tabs.sort_unstable();
+                        let mut blobs = h.blob_file_ids.clone();
+                        blobs.sort_unstable();
+                        println!("VER {i} {} id={} tables={} blobs={}", op.name(), h.version_id, tabs.iter().map(|x| x.to_string()).collect::<Vec<_>>().join(","), blobs.iter().map(|x| x.to_string()).collect::<Vec<_>>().join(","));
+                    }
                     match logical_dump(w.tree()) {
                         Ok(d) => println!("STATE {i} {} {d}", op.name()),
                         Err(e) => println!("STATE {i} {} ERR:{e}", op.name()),
